@@ -158,8 +158,9 @@ def run_cfg(ctx, fx):
         ok = len(wc) == 1 and all(x.kind == "arg" for x in roots(b, wc[0]["args"][1]))
         # and the configured environment is the one whose loop is created
         if ok:
-            cl = [t for _, t in b.normal_calls() if (t.get("callee") or "").endswith("::create_loop")]
-            ok = len(cl) == 1 and any(o.kind == "call" and b.call_at(o) is wc[0] for o in b.origins(cl[0]["args"][0]))
+            # ... directly (create_loop) or through one of the crate's own spawn entry points that take an environment
+            cl = [t for _, t in b.normal_calls() if (t.get("callee") or "").endswith("::create_loop") or ((t.get("callee_local") or t.get("resolved_local")) and any(a.startswith("environment::Environment<") for a in t.get("argtys", [])) and not (t.get("callee") or "").endswith("::with_config"))]
+            ok = len(cl) == 1 and any(any(o.kind == "call" and b.call_at(o) is wc[0] for o in b.origins(a)) for a in cl[0]["args"])
         ctx.require(ok, "R11.1", "terminal:" + term.split("::", 2)[-1], "the terminal must run the loop of the environment configured with the builder's config", fn=term, site=f["loc"])
     wcf = fx.fn("environment::Environment::<A, R>::with_config")
     if ctx.require(wcf is not None, "R11.1", "with_config", "Environment::with_config not found"):
